@@ -1482,16 +1482,27 @@ fn mul_helper_multi_zero_inclusive(
     {
         return Interval::make_unbounded(dt).unwrap();
     }
-    // Since unbounded cases are handled above, we can safely
-    // use the utility functions here to eliminate code duplication.
-    let lower = min_of_bounds(
-        &mul_bounds::<false>(dt, &lhs.lower, &rhs.upper),
-        &mul_bounds::<false>(dt, &rhs.lower, &lhs.upper),
+    // An endpoint product that overflows comes back as NULL (unbounded) from
+    // `mul_bounds`; `min_of_bounds` / `max_of_bounds` read NULL as the *opposite*
+    // infinity, so an unbounded candidate must win explicitly.
+    let (l1, l2) = (
+        mul_bounds::<false>(dt, &lhs.lower, &rhs.upper),
+        mul_bounds::<false>(dt, &rhs.lower, &lhs.upper),
     );
-    let upper = max_of_bounds(
-        &mul_bounds::<true>(dt, &lhs.upper, &rhs.upper),
-        &mul_bounds::<true>(dt, &lhs.lower, &rhs.lower),
+    let lower = if l1.is_null() || l2.is_null() {
+        ScalarValue::try_from(dt).unwrap()
+    } else {
+        min_of_bounds(&l1, &l2)
+    };
+    let (u1, u2) = (
+        mul_bounds::<true>(dt, &lhs.upper, &rhs.upper),
+        mul_bounds::<true>(dt, &lhs.lower, &rhs.lower),
     );
+    let upper = if u1.is_null() || u2.is_null() {
+        ScalarValue::try_from(dt).unwrap()
+    } else {
+        max_of_bounds(&u1, &u2)
+    };
     // There is no possibility to create an invalid interval.
     Interval::new(lower, upper)
 }
